@@ -192,7 +192,7 @@ impl EventData {
     /// the stale timer could hit the next io operation on the same fd.
     #[cfg(feature = "io_timeout")]
     #[inline]
-    fn del_timer(&self, co: CoroutineImpl) -> Option<CoroutineImpl> {
+    pub(crate) fn del_timer(&self, co: CoroutineImpl) -> Option<CoroutineImpl> {
         let h = match self.timer.borrow_mut().take() {
             Some(h) => h,
             None => return Some(co),
